@@ -189,6 +189,48 @@ pub fn nested(depth: usize, implicit: bool, close: bool) -> Vec<u8> {
     out
 }
 
+/// a short random sequence of structural tokens (item headers, delimiters, sequence headers,
+/// pixel data headers, small elements) outside of any well-formed nesting
+pub fn delimiter_soup(r: &mut Rng, implicit: bool) -> Vec<u8> {
+    let mut out = vec![];
+    let n = r.usize(1, 8);
+    for _ in 0..n {
+        match r.below(7) {
+            0 => {
+                out.extend_from_slice(&[0xFE, 0xFF, 0x00, 0xE0]);
+                out.extend_from_slice(&(*r.pick(&[0u32, 0xFFFF_FFFF, 8, 2])).to_le_bytes());
+            }
+            1 => out.extend_from_slice(&[0xFE, 0xFF, 0x0D, 0xE0, 0, 0, 0, 0]),
+            2 => out.extend_from_slice(&[0xFE, 0xFF, 0xDD, 0xE0, 0, 0, 0, 0]),
+            3 => {
+                out.extend_from_slice(&[0x40, 0x00, 0x75, 0x02]);
+                if !implicit {
+                    out.extend_from_slice(b"SQ\0\0");
+                }
+                out.extend_from_slice(&(*r.pick(&[0u32, 0xFFFF_FFFF, 8, 16])).to_le_bytes());
+            }
+            4 => {
+                out.extend_from_slice(&[0xE0, 0x7F, 0x10, 0x00]);
+                if !implicit {
+                    out.extend_from_slice(b"OB\0\0");
+                }
+                out.extend_from_slice(&(*r.pick(&[0u32, 0xFFFF_FFFF, 2])).to_le_bytes());
+            }
+            _ => {
+                out.extend_from_slice(&[0x10, 0x00, 0x20, 0x00]);
+                if implicit {
+                    out.extend_from_slice(&[2, 0, 0, 0]);
+                } else {
+                    out.extend_from_slice(b"LO");
+                    out.extend_from_slice(&[2, 0]);
+                }
+                out.extend_from_slice(b"A ");
+            }
+        }
+    }
+    out
+}
+
 pub fn json_seed(r: &mut Rng) -> Vec<u8> {
     let enc = r.chance(1, 5);
     let o = object_seed(r, enc);
@@ -454,7 +496,18 @@ pub fn mutate_binary(r: &mut Rng, d: &mut Vec<u8>, be: bool) -> &'static str {
 }
 
 pub fn mutate_text(r: &mut Rng, d: &mut Vec<u8>) -> &'static str {
-    match r.below(10) {
+    match r.below(12) {
+        10 | 11 => {
+            // length-preserving: a multi-byte character takes the place of as many bytes
+            let c = *r.pick(&["\u{e9}", "\u{20ac}", "\u{1F600}", "\u{7ff}", "\u{ffff}"]);
+            let l = c.len();
+            if d.len() < l {
+                return "none";
+            }
+            let p = r.usize(0, d.len() - l);
+            d.splice(p..p + l, c.bytes());
+            "multibyte-replace"
+        }
         0 => {
             let n = r.usize(0, d.len());
             d.truncate(n);
